@@ -238,6 +238,10 @@ class SpecBuilder:
                 part = self.partition(vs)
             alts = []
             for a in range(nalt):
+                if a > 0 and len(vs) > 1 and rng.random() < o.get("p_nonsmooth", 0.0):
+                    # an alternative over a strict subset of the variables: the sum is not smooth
+                    alts.append(self.region(rng.sample(vs, len(vs) - 1)))
+                    continue
                 if a > 0:
                     r = rng.random()
                     if r < (0.0 if o.get("structured") else o.get("p_new_partition", 0.25)):
@@ -246,6 +250,14 @@ class SpecBuilder:
                         part = list(part)
                         rng.shuffle(part)  # the same decomposition, listed in another order
                 chs = [self.region(p) for p in part]
+                # malformed stream: overlapping product inputs / constant inputs / non-smooth alternatives
+                if rng.random() < o.get("p_nondecomp", 0.0):
+                    extra = rng.sample(vs, rng.randint(1, len(vs)))
+                    chs.insert(rng.randrange(len(chs) + 1), self.region(extra))
+                if rng.random() < o.get("p_const", 0.0):
+                    kc = rng.choice(o["units"])
+                    chs.insert(rng.randrange(len(chs) + 1),
+                               self.add({"t": "constv", "k": kc, "w": pspec(rng, [kc])}))
                 pr = self.product(chs)
                 if rng.random() < 0.6:
                     pr = self.sum_over([pr])
